@@ -309,7 +309,7 @@ def run(prop, tier, seed):
         mi = build_matrix_inputs(mdir)
         mi["_dir"] = mdir
         workers = (1, 2, 3) if quick else (1, 2, 3, 5, 16)
-        for names, nsim in ((["i1", "i2", "i3"], 12 if quick else 150), (["i4", "i5", "i6", "i7"], 4 if quick else 60)):
+        for names, nsim in ((["i1", "i2", "i3"], 12 if quick else 400), (["i4", "i5", "i6", "i7"], 4 if quick else 150)):
             small = {"i2"} & set(names)
             scripts = behaviours(ctx, set(names), small, workers, True, nsim, 60, seed + len(names))
             scripts = fixed_scripts(names, small, al.KINDS, workers) + scripts
